@@ -5,9 +5,11 @@ package c12
 
 import (
 	"fmt"
+	"path/filepath"
 	"strings"
 
 	"github.com/ozanh/ugo"
+	"github.com/ozanh/ugo/importers"
 
 	"verif/internal/cmpx"
 	"verif/internal/fw"
@@ -208,6 +210,7 @@ func run12(c *fw.Ctx) {
 		}
 	}
 	builtinPrivacy(c)
+	fileModules(c)
 }
 
 func one(c *fw.Ctx, body []gen.Stmt, mods map[string][]gen.Stmt, modSrc map[string]string, cyclic bool, key string) {
@@ -263,6 +266,89 @@ func one(c *fw.Ctx, body []gen.Stmt, mods map[string][]gen.Stmt, modSrc map[stri
 }
 
 // builtinPrivacy: values of imported builtin modules are private per VM.
+// fileModules: source modules imported from files through importers.FileImporter (what cmd/ugo uses). One state
+// module is reached from main by every pair of spellings of its path, directly and through two other modules, under
+// relative and absolute working directories: its body must run once and all imports must be the same object.
+func fileModules(c *fw.Ctx) {
+	c.Family("file-importer", "one module file reached by every ordered pair of 9 path spellings (plain, ./, through a sub directory and back, above the root and back, absolute, through a sibling module, through a module in a sub directory, from inside a function) x 4 working directories (., empty, relative, absolute) x optimizer on/off")
+	cwd, err := filepath.Abs(".")
+	if err != nil {
+		c.Infra("getwd: %v", err)
+		return
+	}
+	root := filepath.Join(cwd, "vroot12", "proj")
+	files := map[string]string{
+		filepath.Join(root, "state.ugo"):    "global L\nL(\"state body\")\nn := 0\nreturn {inc: func() { n++; return n }}\n",
+		filepath.Join(root, "a.ugo"):        "return import(\"state.ugo\")\n",
+		filepath.Join(root, "sub", "b.ugo"): "return import(\"../state.ugo\")\n",
+	}
+	reader := func(name string) ([]byte, error) {
+		abs, err := filepath.Abs(name)
+		if err != nil {
+			return nil, err
+		}
+		if src, ok := files[filepath.Clean(abs)]; ok {
+			return []byte(src), nil
+		}
+		return nil, fmt.Errorf("no such file %s", name)
+	}
+	type wd struct{ name, dir, prefix string }
+	rel, _ := filepath.Rel(cwd, root)
+	wds := []wd{
+		{"relative", rel, ""},
+		{"absolute", root, ""},
+		{"dot", ".", rel + "/"},
+		{"empty", "", rel + "/"},
+	}
+	for _, w := range wds {
+		spell := []struct{ name, expr string }{
+			{"plain", "import(\"" + w.prefix + "state.ugo\")"},
+			{"dot-slash", "import(\"./" + w.prefix + "state.ugo\")"},
+			{"sub-and-back", "import(\"" + w.prefix + "sub/../state.ugo\")"},
+			{"above-and-back", "import(\"" + w.prefix + "../proj/state.ugo\")"},
+			{"absolute", "import(\"" + filepath.Join(root, "state.ugo") + "\")"},
+			{"via-sibling", "import(\"" + w.prefix + "a.ugo\")"},
+			{"via-subdir-module", "import(\"" + w.prefix + "sub/b.ugo\")"},
+			{"in-function", "func() { return import(\"" + w.prefix + "state.ugo\") }()"},
+			{"abs-via-sibling", "import(\"" + filepath.Join(root, "a.ugo") + "\")"},
+		}
+		for _, s1 := range spell {
+			for _, s2 := range spell {
+				for _, noopt := range []bool{false, true} {
+					if !c.Next() {
+						continue
+					}
+					key := fmt.Sprintf("file-importer wd=%s first=%s second=%s noopt=%v", w.name, s1.name, s2.name, noopt)
+					if c.Skip(key) {
+						continue
+					}
+					c.Nontrivial()
+					c.AddStates(1)
+					src := "global L\nm1 := " + s1.expr + "\nm2 := " + s2.expr + "\nm1.inc()\nreturn [m2.inc(), m1.inc()]\n"
+					mm := ugo.NewModuleMap().SetExtImporter(&importers.FileImporter{WorkDir: w.dir, FileReader: reader})
+					var log []string
+					bc, cerr := ugo.Compile([]byte(src), ugo.CompilerOptions{ModuleMap: mm, NoOptimize: noopt})
+					if cerr != nil {
+						c.Violation(key, "compiling fails: "+cerr.Error(), map[string]any{"main": src, "workdir": w.dir})
+						continue
+					}
+					g := ugo.Map{"L": &ugo.Function{Name: "L", Value: func(a ...ugo.Object) (ugo.Object, error) {
+						log = append(log, a[0].String())
+						return ugo.Undefined, nil
+					}}}
+					v, rerr := ugo.NewVM(bc).Run(g)
+					c.AddTraces(1)
+					c.AddTransitions(1)
+					got := uv.Outcome(v, rerr) + " log=" + fmt.Sprint(log)
+					if want := "OK [2, 3] log=[state body]"; got != want {
+						c.Violation(key, fmt.Sprintf("the module file is reached by two spellings of its path: %s, want %s", got, want), map[string]any{"main": src, "workdir": w.dir})
+					}
+				}
+			}
+		}
+	}
+}
+
 func builtinPrivacy(c *fw.Ctx) {
 	c.Family("builtin-privacy", "a script's changes to a builtin module value (top-level key, nested array/map element, sync map) are invisible to a second VM over the same Bytecode and to a later compile")
 	attrs := func() map[string]ugo.Object {
